@@ -244,18 +244,47 @@ def check(ctx: Ctx, col: Collector, tier: str) -> None:
     col.touched(mfi)
     mit = ctx.interp(mfi)
     mit.run_function(mfi, {"self": Sym("self"), "node": Sym("node")}, visitor_state(()))
-    mloops = [(n, *mit.loops[id(n)][0]) for n in ast.walk(mfi.node) if isinstance(n, ast.For) and id(n) in mit.loops and "child_definitions" in ast.unparse(n.iter)]
+    mloops = [(n, *mit.loops[id(n)][0]) for n in ast.walk(mfi.node) if isinstance(n, ast.For) and id(n) in mit.loops and "definitions" in ast.unparse(n.iter)]
     okk = False
     if len(mloops) == 1:
         node, itv, el, entry = mloops[0]
         d = Obj("ExpressionStmt", (("expr", Obj("StrExpr", (("value", Sym("DOC")),))),))
         outs = run_body(mit, node, entry.clone(), d)
-        okk = bool(outs) and all(o.kind == "break" and o.env.get("docstring") == Sym("DOC") for o in outs)
+        one_only = isinstance(node.iter, ast.Subscript) and ast.unparse(node.iter.slice) == ":1"  # a loop over the first statement needs no exit
+        okk = bool(outs) and all((o.kind == "break" or one_only) and o.env.get("docstring") == Sym("DOC") for o in outs)
         other = run_body(mit, node, entry.clone(), Obj("ExpressionStmt", (("expr", Obj("CallExpr", ())),)))
         okk = okk and all(o.kind != "break" and o.env.get("docstring") == entry.env.get("docstring") for o in other)
+    if not mloops:
+        # no search at all: the first statement is taken by index and its string value becomes the docstring
+        idx = [n for n in ast.walk(mfi.node) if isinstance(n, ast.Assign) and any(isinstance(t, ast.Name) and t.id == "docstring" for t in n.targets)
+               and any(isinstance(x, ast.Subscript) and ast.unparse(x.slice) == "0" and "definitions" in ast.unparse(x.value) for x in ast.walk(n.value))]
+        okk = len(idx) == 1
     (col.ok if okk else col.bad)("C13.MODULE-DOC", f"{VISITOR}::{VCLS}.enter_moduledef::first-string-wins", repo.loc(VISITOR, mfi.node),
                                  "the search stops at the first top-level string statement; other statements leave the docstring untouched" if okk else "loop shape differs",
                                  *([] if okk else ["the module docstring is not the first top-level string: a later bare string (e.g. an attribute docstring) replaces the module description"]))
+
+    # ... and that statement is the module's first statement: a string that follows imports, constants or definitions (the attribute docstring
+    # `LIMIT = 3` / `"""The limit."""` of PEP 257) documents something else.  The search must therefore not skip statements: neither by running
+    # over a filtered list of the definitions nor by continuing past a statement that is no string.
+    def module_doc_first_statement() -> tuple[bool, str]:
+        subs = [n for n in ast.walk(mfi.node) if isinstance(n, ast.Subscript) and ast.unparse(n.slice) in ("0", ":1") and "definitions" in ast.unparse(n.value)]
+        if not mloops:
+            return (bool(subs), "only the first statement is consulted" if subs else "neither a loop over the module's statements nor a use of its first statement found")
+        node = mloops[0][0]
+        src = ast.unparse(node.iter)
+        # where does the iterated list come from?
+        filtered = [a for a in ast.walk(mfi.node) if isinstance(a, ast.Assign) and any(isinstance(t, ast.Name) and t.id == src for t in a.targets)
+                    and isinstance(a.value, (ast.ListComp, ast.GeneratorExp)) and any(g.ifs for g in a.value.generators)]
+        if filtered:
+            return False, f"the search runs over `{src}`, a filtered copy of the module's statements (line {filtered[0].lineno}): the statements before a string are taken out"
+        exits_always = bool(node.body) and isinstance(node.body[-1], (ast.Break, ast.Return)) or (
+            len(node.body) == 1 and isinstance(node.body[0], ast.If) and node.body[0].orelse and all(isinstance(b[-1], (ast.Break, ast.Return)) for b in (node.body[0].body, node.body[0].orelse)))
+        sliced = isinstance(node.iter, ast.Subscript) and ast.unparse(node.iter.slice) == ":1"
+        return (exits_always or sliced, "the search never goes past the first statement" if exits_always or sliced else "the search continues past statements that are no strings")
+    okk, why = module_doc_first_statement()
+    (col.ok if okk else col.bad)("C13.MODULE-DOC", f"{VISITOR}::{VCLS}.enter_moduledef::first-statement-only", repo.loc(VISITOR, mloops[0][0] if mloops else mfi.node), why,
+                                 *([] if okk else ["a module without a docstring takes the first bare string statement anywhere at top level as its description: `import os` / `LIMIT = 3` / "
+                                                   "`\"\"\"The limit of things.\"\"\"` (an attribute docstring) puts `The limit of things.` above the package line - text reaches an element it does not belong to"]))
 
     # plaintext style: the docstring of a class / function is its first statement, if that is a string - not a later string statement such as the
     # docstring of an attribute ("string below the assignment") or a stray string
